@@ -330,6 +330,10 @@ def gen_case(rng: random.Random, tier: str, algo: str | None = None, drift: bool
         elif x < 0.70 and nmut < cap:
             ops.append(["mutall"])
             nmut += 1
+        elif x < 0.76 and not drift:
+            # another kind of mutation on an agent: it must leave the hyper-parameters alone and every
+            # optimizer it re-creates must keep stepping with the agent's CURRENT learning rate
+            ops.append(["othermut", rng.randrange(size), rng.choice(["param", "act", "arch"])])
         elif x < 0.80 and size < 5:
             ops.append(["clone", rng.randrange(size)])
             size += 1
@@ -562,6 +566,25 @@ def run_case(case: dict):
                 check_mutated(j, a, snap[j], [(i, x) for i, x in enumerate(snap) if i != j], hps, table, where, problems,
                               tags, shs[j])
             tags.append("op-mutall")
+        elif op[0] == "othermut":
+            j = op[1] % len(pop)
+            kind = op[2]
+            snap = snapshot(pop, names, table)
+            m2 = Mutations(0, int(kind == "arch"), 0.5, int(kind == "param"), int(kind == "act"), 0,
+                           rand_seed=s % (2 ** 31))
+            try:
+                out = m2.mutation([pop[j]])
+                pop[j] = out[0]
+                tags.append(f"op-othermut-{kind}")
+            except Exception as e:                      # coherence after such mutations is C02's subject
+                tags.append(f"op-othermut-{kind}-raised-{type(e).__name__}")
+            now = snapshot(pop, names, table)
+            for i in range(len(pop)):
+                if any(not same_value(now[i]["hp"][n], snap[i]["hp"][n]) for n in names):
+                    problems.append(f"{where}: a {kind} mutation of agent {j} changed hyper-parameters of agent {i}")
+            impl.append("ok")
+            model.append("hpmut dump")                   # the model's state is untouched by other mutation kinds
+            impl[-1] = dump_line(pop, all_names, opt_attrs)
         elif op[0] == "clone":
             j = op[1] % len(pop)
             c = pop[j].clone()
@@ -643,8 +666,8 @@ def normalize_ops(case: dict) -> dict:
     """agent indices are taken modulo the current population size; write them out"""
     size, ops = case["pop"], []
     for op in case["ops"]:
-        if op[0] in ("mut", "clone"):
-            ops.append([op[0], op[1] % size])
+        if op[0] in ("mut", "clone", "othermut"):
+            ops.append([op[0], op[1] % size] + list(op[2:]))
             size += op[0] == "clone"
         else:
             ops.append(op)
